@@ -393,7 +393,7 @@ func buildHistory(rt *rapid.T, full bool) (*histBuilder, string) {
 	b.send(o0, fttypes.NewMsgPostFile(o0.Bech, hexsha(o0.Bech), root, hexsha("home"), "contents", accessJSON("v", "tn1", o0.Bech), accessJSON("e", "tn1", o0.Bech), "tn1"))
 	b.send(other[0], &notiftypes.MsgCreateNotification{Creator: other[0].Bech, To: o0.Bech, Contents: `{"hello":1}`})
 	b.send(o0, &notiftypes.MsgBlockSenders{Creator: o0.Bech, ToBlock: []string{other[0].Bech}})
-	b.postFile(b.owners[0], append([]byte{1}, c02Content(2500)...), int64(nProv))
+	b.postFile(b.owners[0], append([]byte{1}, c02Content(9000)...), int64(nProv)) // nine chunks: the challenge has room to move
 	b.postFile(b.owners[1], append([]byte{2}, c02Content(700)...), 2)
 	// a file paid once for a span of months (crosses daylight-saving switches of most zones that have them)
 	b.postFileFor(b.owners[1], append([]byte{3}, c02Content(1200)...), 2, rapid.Int64Range(30, 400).Draw(rt, "payOnceDays"))
@@ -433,7 +433,7 @@ func buildHistory(rt *rapid.T, full bool) (*histBuilder, string) {
 				case 2:
 					days = rapid.SampledFrom([]int64{-1, -14400, math.MinInt64}).Draw(rt, "negativeExpiry")
 				}
-				b.postFileFor(o, append([]byte{byte(10 + len(b.files))}, c02Content(rapid.Int64Range(1, 3000).Draw(rt, "size"))...), rapid.Int64Range(1, 4).Draw(rt, "maxProofs"), days)
+				b.postFileFor(o, append([]byte{byte(10 + len(b.files))}, c02Content(rapid.OneOf(rapid.Int64Range(1, 3000), rapid.Int64Range(3000, 12000)).Draw(rt, "size"))...), rapid.Int64Range(1, 4).Draw(rt, "maxProofs"), days)
 			case 4: // attestation / report forms (height-seeded shuffles)
 				f := b.files[rapid.IntRange(0, len(b.files)-1).Draw(rt, "file")]
 				p := b.provs[rapid.IntRange(0, len(b.provs)-1).Draw(rt, "prover")]
